@@ -184,6 +184,10 @@ func createFilesInTar(info *nfpm.Info, tw *tar.Writer) ([]MtreeEntry, int64, err
 
 	for _, content := range info.Contents {
 		content.Destination = files.AsRelativePath(content.Destination)
+		if content.Destination == "" {
+			// the root directory itself: a tar member needs a name
+			continue
+		}
 
 		switch content.Type {
 		case files.TypeDir, files.TypeImplicitDir:
